@@ -123,6 +123,9 @@ func (a *A) C06() {
 	a.discTestUnconditional()
 	a.flushAfterDiscontinuity()
 	a.pusiReturnsPrevious()
+	// "a duplicate never alters any delivered data": the queue is append-only, no queued packet is replaced in place
+	// (S6 of C02) — a duplicate that takes the original's slot brings its own adaptation field (a re-stamped PCR)
+	a.appendOnlyQueue()
 }
 
 // (b) on the isSameAsPrevious-true edge add returns an empty result and leaves b.q as it was.
